@@ -36,6 +36,10 @@ var configs = map[string]Config{
 	"c-sse":      {Name: "c-sse", Env: []string{"GODEBUG=cpu.avx2=off,cpu.avx=off"}, Variant: "default"},
 	"c-scalar":   {Name: "c-scalar", Env: []string{"GODEBUG=cpu.avx2=off,cpu.avx=off,cpu.ssse3=off"}, Variant: "default"},
 	"c-nobmi2":   {Name: "c-nobmi2", Env: []string{"GODEBUG=cpu.bmi2=off,cpu.adx=off"}, Variant: "default"},
+	// "inconsistent" single-flag settings (the cpu options do not cascade): AVX2 still on with AVX off, AVX on with SSSE3 off.
+	// A dispatch that tests the flags in another order than the code that sizes its batches only shows here.
+	"c-avxoff":   {Name: "c-avxoff", Env: []string{"GODEBUG=cpu.avx=off"}, Variant: "default"},
+	"c-ssse3off": {Name: "c-ssse3off", Env: []string{"GODEBUG=cpu.ssse3=off"}, Variant: "default"},
 	"c-nopclmul": {Name: "c-nopclmul", Env: []string{"GODEBUG=cpu.pclmulqdq=off"}, Variant: "default"},
 	"c-noaes":    {Name: "c-noaes", Env: []string{"GODEBUG=cpu.aes=off"}, Variant: "default"},
 	"c-aesni1":   {Name: "c-aesni1", Env: []string{"FORCE_SM4BLOCK_AESNI=1"}, Variant: "default"},
@@ -51,7 +55,7 @@ var configs = map[string]Config{
 }
 
 // AllTiers lists every dispatch configuration reachable on this host, in a fixed order.
-var AllTiers = []string{"c-default", "c-noavx2", "c-sse", "c-scalar", "c-nobmi2", "c-nopclmul", "c-noaes", "c-aesni1", "c-purego"}
+var AllTiers = []string{"c-default", "c-noavx2", "c-sse", "c-scalar", "c-nobmi2", "c-nopclmul", "c-noaes", "c-aesni1", "c-purego", "c-avxoff"}
 
 // Property is implemented by each per-property driver.
 type Property interface {
